@@ -1,4 +1,5 @@
 #!/bin/bash
+export VERIF_EVIDENCE_DIR=/tmp/verif-scratch-evidence
 # usage: tools/try_patch.sh <patch.diff> <Cxx> [extra check args]
 # applies the patch to /repo, runs the check, always reverts
 patch=$1; prop=$2; shift 2
